@@ -53,7 +53,7 @@ def width(rng):
 
 def hook_cases(tier, rng, n):
     for _ in range(n):
-        c = rng.choice([c_small, c_mid, lambda r: r.randrange(-500, 501)])
+        c = rng.choice([c_small, c_mid, lambda r: r.randrange(-500, 501), lambda r: r.randrange(-8192, 8193)])
         a = [c(rng) for _ in range(8)]
         w = rng.choice([0, 1, 2, 3, 4, 5, 6, 8, 11, rng.randrange(0, 40)])
         so = rng.randrange(3)
@@ -97,6 +97,21 @@ def cases(tier, rng):
         al, fl = rng.randrange(3), rng.randrange(2)
         yield J(rng.choice(['join_tri_pixels', 'join_tri_pixels', 'join_tri_rects']), w, al, fl, *t)
         yield J('join_tri_bbox', w, al, fl, *t)
+    # the hypotheses of the composition theorems hold on display-scale input (model-side evaluation; the implementation
+    # side answers the constant 1): coordinates within +-2^13 before and after the move, widths 2..64
+    for _ in range(n):
+        B = rng.choice([20, 300, 4096, 8192])
+        pts = []
+        for i in range(rng.choice([2, 3, 3, 4, 5])):
+            if len(pts) >= 2 and rng.random() < 0.3:
+                (ax, ay), (bx, by) = pts[-2], pts[-1]
+                m = rng.choice([-2, -1, 1, 2])
+                q = (bx + m * (bx - ax) + rng.choice([0, 1, -1]), by + m * (by - ay) + rng.choice([0, 0, 1]))
+                pts.append((max(-B, min(B, q[0])), max(-B, min(B, q[1]))))
+            else:
+                pts.append((rng.randrange(-B, B + 1), rng.randrange(-B, B + 1)))
+        d = (rng.randrange(-B, B + 1), rng.randrange(-B, B + 1))
+        yield J('join_poly_hyp', rng.randrange(2, 65), *d, *flat(pts))
     if HOOK_SUITES:
         yield from hook_cases(tier, rng, 6 * n)
 
